@@ -570,6 +570,10 @@ class World:
                     if payload:
                         name, state = payload[0], payload[1]
                         apps = payload[2] if len(payload) > 2 else None
+                        # the state changes NOW (when the event is handled,
+                        # possibly long after it was posted): the harness's
+                        # bounds on when the server went down start afresh
+                        truth.down.pop(name, None)
                         if name not in truth.srv:
                             continue
                         if state == 'frozen':
